@@ -223,6 +223,12 @@ func (w *c14World) do(op string, rnd func(int) int) {
 		// waiting for that lock is not durably blocked, so a bubble's clock would stand still: these publishes
 		// go to a topic of their own, on which nothing takes the write lock (Close, SetScoreParams).
 		if rh := w.handle("ready"); rh != nil {
+			if rnd(3) == 0 {
+				// the caller's context never ends and the topic never gets that many peers: only the node's own
+				// context can end this call (it is in progress at cancellation, or refused after it)
+				rh.Publish(context.Background(), []byte(fmt.Sprintf("r-%d", rnd(1<<30))), WithReadiness(MinTopicSize(50)))
+				return
+			}
 			ctx, cancel := context.WithTimeout(context.Background(), time.Second)
 			rh.Publish(ctx, []byte(fmt.Sprintf("r-%d", rnd(1<<30))), WithReadiness(MinTopicSize(rnd(4))))
 			cancel()
